@@ -9,7 +9,8 @@ Space (configuration lattice): ALL ordered lists of 0..N lines (with repetitions
 {sparse, dense, tight-crop, no-logits} x stub.  Each list is recognised by a fresh engine, then again in reversed order by the SAME
 engine (history), and once through PageOCR.process_page.  Sub-lattice 'x' (BOUNDS bsx / ctxx, lists of 1-2): the same engine then recognises the
 list in every other mode (all ordered pairs of modes); lists of 1-3: every network call of the call fails once (environment answer,
-mc/faults.py) - a value the call returns, and the next call, are checked like any other result.
+mc/faults.py) - a value the call returns, and the next call, are checked like any other result.  Page sub-sweep (BOUNDS page_bounds): one
+PageOCR page of B - 1, B, B + 1 lines for every boundary B (powers of two, round decimal numbers), every line compared with its crop alone.
 
 Oracle: the same line recognised alone by a fresh engine (same pixel budget), position by position; and a reference decoder: the
 transcription is the greedy CTC decoding of the logits returned for the line (the alone-run goes through the same decoder, so a
@@ -24,7 +25,7 @@ ID = 'C07'
 
 MANIFEST = dict(
     technique='explicit-state enumeration of all ordered line lists x batch sizes x modes x stub networks on the real engine (real constructor, TorchScript stub); differential oracle = each line recognised alone by a fresh engine',
-    text='Bounded exhaustive: every ordered list of 0-2 line crops over a 19-crop alphabet (widths 1..300, equal-width twins, an over-long crop) x batch size {1,2,3,16} (quick) / 1..16 (thorough) x {sparse, dense, tight-crop, no-logits} x two stub networks, every list of 3 crops for batch sizes {1,16} on the local stub (quick) / all batch sizes and both stubs (thorough), lists of 4 over a 6-crop sub-alphabet (thorough), each recognised, recognised again in reverse order on the same engine, and through PageOCR.process_page. At every position the text, the logits on the line\'s own frames and the frame window must equal those of the line recognised alone; sparse storage must hold exactly the dense logits with posterior >= 1e-4. Added sub-sweeps: crops of 417 / 440 / 448 / 500 px around the smallest engine maximum, a blank crop, a crop with logit range > 200, an embedding engine whose id changes between calls, 260 lines in one call, and a sparsification clause (exactly the entries with posterior >= 1e-4). Crops with identical bytes but different shape/dtype (the float64 placeholder of a failed crop next to a blank uint8 crop) in one call; the call after one in which the network raised out-of-memory once (injected fault). Wave 10: (1) every fault point of the call on the list itself (mc/faults.py Injector on the network call, lists of 1-3, batch sizes {2,16} quick / all thorough): the call may raise, but a value it returns - and the next call on that engine - must give every line its own result; (2) mode history: after its calls in mode m the same engine recognises the list (1-2 crops) in every other mode, all ordered pairs of modes, each result compared with the line alone in that mode; (3) reference decoder clause: every dense / sparse transcription must be the greedy CTC decoding (each line on its own, no predecessor for frame 0) of the logits returned at that position, and the embedding stub makes the padding read as each character a, b, c (not blank) so that the first and last frame of a buffer row carry a character.',
+    text='Bounded exhaustive: every ordered list of 0-2 line crops over a 19-crop alphabet (widths 1..300, equal-width twins, an over-long crop) x batch size {1,2,3,16} (quick) / 1..16 (thorough) x {sparse, dense, tight-crop, no-logits} x two stub networks, every list of 3 crops for batch sizes {1,16} on the local stub (quick) / all batch sizes and both stubs (thorough), lists of 4 over a 6-crop sub-alphabet (thorough), each recognised, recognised again in reverse order on the same engine, and through PageOCR.process_page. At every position the text, the logits on the line\'s own frames and the frame window must equal those of the line recognised alone; sparse storage must hold exactly the dense logits with posterior >= 1e-4. Added sub-sweeps: crops of 417 / 440 / 448 / 500 px around the smallest engine maximum, a blank crop, a crop with logit range > 200, an embedding engine whose id changes between calls, 260 lines in one call, and a sparsification clause (exactly the entries with posterior >= 1e-4). Crops with identical bytes but different shape/dtype (the float64 placeholder of a failed crop next to a blank uint8 crop) in one call; the call after one in which the network raised out-of-memory once (injected fault). Wave 10: (1) every fault point of the call on the list itself (mc/faults.py Injector on the network call, lists of 1-3, batch sizes {2,16} quick / all thorough): the call may raise, but a value it returns - and the next call on that engine - must give every line its own result; (2) mode history: after its calls in mode m the same engine recognises the list (1-2 crops) in every other mode, all ordered pairs of modes, each result compared with the line alone in that mode; (3) reference decoder clause: every dense / sparse transcription must be the greedy CTC decoding (each line on its own, no predecessor for frame 0) of the logits returned at that position, and the embedding stub makes the padding read as each character a, b, c (not blank) so that the first and last frame of a buffer row carry a character. Wave 11: page-size sub-sweep - PageOCR.process_page on pages of B - 1, B and B + 1 lines for B in {64, 100, 128, 256, 500, 512, 1000, 1024, 2048} (quick; thorough also 2000, 4096, 5000), both stubs, lines in three regions one of which is empty; every line of the page, in reading order, must carry the transcription, logits, frame window and alphabet of its own crop recognised alone.',
     note='Stub networks with bounded horizontal receptive field (the property is stated for those); CPU only; float tolerance 1e-5 on logits.',
     ref='3/C07')
 
@@ -39,8 +40,11 @@ CROPS = [(w, i) for i, w in enumerate(WIDTHS)] + [(32, 40), (500, 41), (36, 50),
 # it could not crop - it has the same bytes as the blank uint8 crop of 8 x H pixels next to it (seed 60, 64 px)
 MODES = ['sparse', 'dense', 'tight', 'nologits']
 DEPTH3_QUICK = [0, 4, 5, 7, 8, 9, 10, 11, 12, 14]      # lists of 3 in the quick tier use this sub-alphabet
-BOUNDS = {'quick': dict(depth=3, bs=[1, 2, 3, 16], bs3=[1, 16], ctx3=[0], deep_alphabet=0, bsx=[2, 16], ctxx=[0]),
-          'thorough': dict(depth=3, bs=list(range(1, 17)), bs3=list(range(1, 17)), ctx3=[0, 1], deep_alphabet=6, bsx=list(range(1, 17)), ctxx=[0, 1])}
+# page_bounds: PageOCR pages with B - 1, B and B + 1 lines for every B of this list (powers of two and round decimal numbers: what a page-level
+# portion / buffer size would be)
+BOUNDS = {'quick': dict(depth=3, bs=[1, 2, 3, 16], bs3=[1, 16], ctx3=[0], deep_alphabet=0, bsx=[2, 16], ctxx=[0], page_bounds=[64, 100, 128, 256, 500, 512, 1000, 1024, 2048], page_ctx=[0, 1]),
+          'thorough': dict(depth=3, bs=list(range(1, 17)), bs3=list(range(1, 17)), ctx3=[0, 1], deep_alphabet=6, bsx=list(range(1, 17)), ctxx=[0, 1],
+                           page_bounds=[64, 100, 128, 256, 500, 512, 1000, 1024, 2000, 2048, 4096, 5000], page_ctx=[0, 1])}
 BOUNDS['replay'] = BOUNDS['quick']
 STUBS = [(0,), (1,)]                    # ctx = 0 (strictly local) / 1 (3-frame receptive field)
 _REF = {}
@@ -128,6 +132,11 @@ def shards(tier):
                     out.append({'ctx': ctx, 'bs': bs, 'n': [4], 'first': f})
     for bs in (3, 16):
         out.append({'big': 260, 'bs': bs})          # one call with more than 255 lines
+    # page level: pages whose line count lies just below, at and just above every boundary of the tier (one shard per page)
+    for cx in b['page_ctx']:
+        for B in b['page_bounds']:
+            for n in (B - 1, B, B + 1):
+                out.append({'page': n, 'ctx': cx})
     return out
 
 
@@ -136,6 +145,9 @@ def run_shard(shard, ctx, tier):
     import sys
     mod = sys.modules[__name__]
     b = BOUNDS[tier]
+    if 'page' in shard:
+        guarded_check(mod, {'page': shard['page'], 'ctx': shard['ctx']}, ctx)
+        return
     if 'big' in shard:
         narrow = [i for i, (w, _) in enumerate(CROPS) if w <= 200]
         lst = [narrow[(7 * k + k // 5) % len(narrow)] for k in range(shard['big'])]
@@ -217,11 +229,60 @@ def compare(pos, i, got, ref, mode, w, bs, ctx_, K, desc, sub, ctx, padding_is_b
     return True
 
 
+def page_lines(n):
+    """the n crops (indices into CROPS) of a large page: narrow crops, neighbours differ in width and content"""
+    narrow = [i for i, (w, _) in enumerate(CROPS) if w <= 100]
+    return [narrow[(7 * k + k // 5) % len(narrow)] for k in range(n)]
+
+
+def check_page(case, ctx):
+    """One page of case['page'] lines in three regions (first half / none / second half) through a real PageOCR: every line of the page, in
+    reading order, carries the transcription, logits, window and alphabet of ITS crop recognised alone (PageOCR's default engine batch size)"""
+    import configparser
+    import torch
+    from mc import stubs
+    from pero_ocr.core.layout import PageLayout, RegionLayout, TextLine
+    from pero_ocr.document_ocr.page_parser import PageOCR
+    n, cx = case['page'], case['ctx']
+    lst = page_lines(n)
+    ctx.state((('page', n), cx))
+    K = f'{ID}/PageOCR/large-page'
+    desc = f'page of {n} lines (regions of {n // 2}, 0 and {n - n // 2} lines; crops CROPS[i] for i in page_lines({n})) stub_ctx={cx}'
+    cfg = configparser.ConfigParser()
+    cfg['OCR'] = {'OCR_JSON': stubs.ctc_engine_json(C, CHARS, line_px_height=H, pool=4, bias_blank=3.0, ctx=cx, offset=0.25), 'USE_CPU': 'yes'}
+    pocr = PageOCR(cfg['OCR'], torch.device('cpu'))
+    page = PageLayout(id='p', page_size=(100, 100))
+    regs = [RegionLayout('r1', np.zeros((4, 2))), RegionLayout('r2', np.zeros((4, 2))), RegionLayout('r3', np.zeros((4, 2)))]
+    for pos, i in enumerate(lst):
+        regs[0 if pos < n // 2 else 2].lines.append(TextLine(id=f'l{pos}', crop=crop(i)))
+    page.regions = regs
+    pocr.process_page(None, page)
+    ctx.executed()
+    got = list(page.lines_iterator())
+    if [l.id for l in got] != [f'l{pos}' for pos in range(n)]:
+        ctx.violation('own-transcription-at-own-position', f'{K}/lines-of-the-page-changed', f'{desc}: the page has lines {[l.id for l in got][:20]}... after recognition')
+        return
+    for pos, (line, i) in enumerate(zip(got, lst)):
+        if not compare(pos, i, (line.transcription, line.logits, line.logit_coords), reference(i, 8, cx, 'sparse'), 'sparse', CROPS[i][0], 8, cx, K,
+                       desc + f': line {pos} of the page', case, ctx):
+            return
+        if line.characters is None or list(line.characters) != CHARS + ['\u200b']:
+            ctx.violation('own-transcription-at-own-position', f'{K}/alphabet', f'{desc}: line {pos} of the page has alphabet {line.characters!r}')
+            return
+    ctx.nontrivial((('page', n), cx), 'mixed-width-batches')
+    ctx.tag('page-with-a-line-count-next-to-a-round-number')
+    if n > 512:
+        ctx.tag('page-with-more-than-512-lines')
+    ctx.outcome(tuple(l.transcription for l in got))
+
+
 def check_case(case, ctx):
     import configparser
     import torch
     from pero_ocr.core.layout import PageLayout, RegionLayout, TextLine
     from pero_ocr.document_ocr.page_parser import PageOCR
+    if 'page' in case:
+        return check_page(case, ctx)
     lst, bs, cx, mode = case['lines'], case['bs'], case['ctx'], MODES[case['mode']]
     ctx.state((tuple(lst), bs, cx, mode))
     if len(lst) > 255:
@@ -447,6 +508,8 @@ def describe(tier):
                 '4 modes x 2 stub networks; each list is recognised twice on one engine (second time reversed) and once through PageOCR; on the '
                 'sub-lattice bsx x ctxx additionally in every other mode on that engine (lists of 1-2) and with each of its network calls failing once '
                 '(lists of 1-3, sparse / dense). '
+                'Page sub-sweep: one PageOCR page of B - 1, B, B + 1 lines for every B in page_bounds x stub in page_ctx (three regions, one of them empty), every '
+                'line compared with its crop recognised alone. '
                 'state = (list, batch size, stub, mode). Non-trivial: lists with lines of different widths (sorting/padding/permutation matter).',
         'bounds': BOUNDS[tier], 'alphabets': {'crops(width, content)': CROPS, 'modes': MODES, 'stubs(ctx)': STUBS},
         'assumptions': ['frames beyond a line\'s own tensor are padding and only need to decode to blank',
@@ -455,5 +518,5 @@ def describe(tier):
         'required_tags': ['network-failure-injected-at-every-network-call-of-a-call', 'mode-changed-between-calls-on-one-engine',
                           'transcription-decoded-again-from-the-returned-logits', 'padding-reads-as-every-character-of-the-alphabet',
                           'call-after-an-injected-out-of-memory-error', 'network-with-minus-infinity-logits', 'more-than-255-lines-in-one-call', 'embedding-engine-id-changed-between-calls', 'mixed-width-batches', 'truncated-line', 'several-batches', 'equal-width-lines', 'page-ocr-pages',
-                          'sparse-keeps-small-and-prunes-smaller'],
+                          'page-with-a-line-count-next-to-a-round-number', 'page-with-more-than-512-lines', 'sparse-keeps-small-and-prunes-smaller'],
     }
